@@ -56,6 +56,8 @@ type World struct {
 	ginParams  map[string]*Term
 	ignoreGo   bool
 	ginBound   []ginBound
+	syncMaps   map[int][]syncMapEntry
+	lifecycle  []string
 	nsplit     int
 	httpErrors []*Term
 	reqDone    *ChanObj
